@@ -7,6 +7,7 @@ EXTENDS Integers, Sequences
 
 Byte == 0..255
 
+\* Reference definition: walk both strings until they differ.
 RECURSIVE CmpFrom(_, _, _)
 CmpFrom(a, b, i) ==
     IF i > Len(a) THEN (IF i > Len(b) THEN 0 ELSE -1)
@@ -14,9 +15,25 @@ CmpFrom(a, b, i) ==
     ELSE IF a[i] < b[i] THEN -1
     ELSE IF a[i] > b[i] THEN 1
     ELSE CmpFrom(a, b, i + 1)
+CmpRef(a, b) == CmpFrom(a, b, 1)
+
+\* Fast form used on real traces (keys of up to 2^21 bytes): bisect for the first differing
+\* position with native sub-sequence equality.  MCBytes checks Cmp = CmpRef exhaustively.
+RECURSIVE FirstDiffIn(_, _, _, _)
+FirstDiffIn(a, b, lo, hi) ==      \* precondition: a and b differ somewhere in lo..hi
+    IF lo = hi THEN lo
+    ELSE LET mid == (lo + hi) \div 2 IN
+         IF SubSeq(a, lo, mid) = SubSeq(b, lo, mid) THEN FirstDiffIn(a, b, mid + 1, hi)
+         ELSE FirstDiffIn(a, b, lo, mid)
+FirstDiff(a, b) ==                \* 0 if one is a prefix of the other
+    LET m == IF Len(a) <= Len(b) THEN Len(a) ELSE Len(b) IN
+    IF m = 0 \/ SubSeq(a, 1, m) = SubSeq(b, 1, m) THEN 0 ELSE FirstDiffIn(a, b, 1, m)
 
 \* -1 / 0 / 1 : a before / equal to / after b
-Cmp(a, b) == CmpFrom(a, b, 1)
+Cmp(a, b) ==
+    LET d == FirstDiff(a, b) IN
+    IF d = 0 THEN (IF Len(a) < Len(b) THEN -1 ELSE IF Len(a) > Len(b) THEN 1 ELSE 0)
+    ELSE IF a[d] < b[d] THEN -1 ELSE 1
 Lt(a, b) == Cmp(a, b) = -1
 Le(a, b) == Cmp(a, b) # 1
 
@@ -27,7 +44,8 @@ LtDef(a, b) ==
         /\ \A j \in 1..(i - 1) : a[j] = b[j]
         /\ (i = Len(a) + 1 \/ a[i] < b[i])
 
-IsPrefix(p, s) == Len(p) <= Len(s) /\ \A i \in 1..Len(p) : p[i] = s[i]
+IsPrefix(p, s) == Len(p) <= Len(s) /\ SubSeq(s, 1, Len(p)) = p
+IsPrefixDef(p, s) == Len(p) <= Len(s) /\ \A i \in 1..Len(p) : p[i] = s[i]
 
 \* A sequence of byte strings in strictly ascending order.
 StrictlyAscending(ss) == \A i \in 1..(Len(ss) - 1) : Lt(ss[i], ss[i + 1])
